@@ -198,6 +198,7 @@ def rand_value(rng, lo, hi):
 
 
 BYTE_LISTS = None
+SMALL_LISTS = [False]
 
 
 def byte_lists():
@@ -300,6 +301,8 @@ def cand_expr(t, nums, inds):
     if h == "comparison":
         return "[Eq; Lt; Gt]", 3
     if h == "list" and args and args[0] == ("app", "N", []):
+        if SMALL_LISTS[0]:
+            return "sf_lists_s", 14
         return "sf_lists", len(byte_lists())
     if h in ("key",):
         return "sf_lists", len(byte_lists())
@@ -350,7 +353,8 @@ def sample_file(preamble, lem, seed=1, root=ROOT):
            "  match l with [] => None | x :: r => match f x with Some y => Some y | None => sf_find r f end end.",
            "Definition sf_orelse {A} (a b : option A) : option A := match a with Some x => Some x | None => b end.",
            "Definition sf_states : list N := [0; 1; 2; 3; 4; 5; 6; 7].",
-           "Definition sf_lists : list (list N) := [%s]." % "; ".join("[%s]" % "; ".join(str(x) for x in l) for l in byte_lists())]
+           "Definition sf_lists : list (list N) := [%s]." % "; ".join("[%s]" % "; ".join(str(x) for x in l) for l in byte_lists()),
+           "Definition sf_lists_s : list (list N) := firstn 14 sf_lists."]
     # component automata are fixed sample automata whose three predicates differ on every state
     bs = []
     nauts = 0
@@ -368,7 +372,7 @@ def sample_file(preamble, lem, seed=1, root=ROOT):
         out.append("Eval vm_compute in (%s)." % lem["rhs"])
         return "\n".join(out) + "\n", []
     # a statement that converts to unary nat cannot be evaluated on huge numbers
-    cap = 70000 if re.search(r"to_nat|onat", lem["stmt"]) else (1 << 64) - 1
+    cap = 300 if re.search(r"to_nat|onat", lem["stmt"]) else (1 << 64) - 1
     nsets = {}
     for n, ty in bs:
         if ty == "N":
@@ -382,6 +386,7 @@ def sample_file(preamble, lem, seed=1, root=ROOT):
         for n, ty in bs:
             cs.append(cand_expr(ty_parse(ty), (lambda n=n: nsets[n][0] if n in nsets else generic), inds))
         return cs
+    SMALL_LISTS[0] = False
     cs = build()
     def prod(cs):
         p = 1
@@ -393,6 +398,9 @@ def sample_file(preamble, lem, seed=1, root=ROOT):
         if len(nsets[n][0]) <= 6:
             break
         nsets[n] = (thin(nsets[n][0], max(6, int(len(nsets[n][0]) * 0.7))), nsets[n][1])
+        cs = build()
+    if prod(cs) > BUDGET:
+        SMALL_LISTS[0] = True
         cs = build()
     args = " ".join("(%s : %s)" % (n, t) for n, t in bs)
     dom = " && ".join(hyp_bool(h) for h in lem["hyps"]) or "true"
